@@ -468,16 +468,17 @@ CHECKS["C07"] = {
                   "kv file-system operation and every WAL/consumer-group page store; recovery through the production open paths (tsdb.NewEngine, WriteAheadLogManager.Recovery, free-running replay); oracle through the production query path"),
     "rule": ("history = log appends (entry i adds 4^i to one sum cell, so the base-4 digits of the stored sum count how often each entry was applied; every entry also writes a row that either introduces new metric/tag/field/series names "
              "or re-uses names of an earlier entry), single local replication steps, flush cycles in production order (FlushMeta, FlushIndex, family.Flush) whose sub-steps interleave freely with appends/replication/log GC. "
-             "The history ends with the crash: sampled images (quick 5, thorough 30 per history, biased to flush/replication/GC windows) are recovered and replayed. Per image: log ack <= sequence stored with the flushed data; "
+             "The history ends with the crash: sampled images (biased to flush/replication/GC windows) are recovered and replayed. Per image: log ack <= sequence stored with the flushed data; "
              "every entry of the recovered log applied >= 1 times, entries at or below the stored sequence exactly once, nothing beyond the log; every entry's row is found by metric name + tag filter + group-by. "
+             "Further operations: (a) records without a write - bytes that are not a snappy stream, a torn prefix of a real record, a stream decoding to zero rows (the storage write rpc does not validate req.Record); they must be skipped, contribute nothing, and the log ack may exceed the stored sequence only across such records; (b) replicaCatchUp; (c) inside each flush sub-step, at drawn table-file operations where the flush job holds neither the family mutex (TryLock probe) nor a kv version lock, the harness runs an append and/or 1-3 replicator steps on the flush goroutine (for family.Flush: between the memdb freeze and the kv commit); (d) the log-removal task usually runs with a caught-up replicator. Images: the end-of-history image always; the last plus one drawn image of each loss window (data-flush commit with replication inside / skipped record above unflushed writes ... next data-flush commit); 3 images between two commits of one sub-step; quick 10 / thorough 30 per history; one in four tableWrite points imaged (drawn). "
              "crash-point non-trivial = recovered image has entries above and below the persisted sequence; distinct = (history, image tag) hash"),
     "level_text": ("Fault enumeration at file-system-operation / page-store granularity over generated histories of the real node: every crash point of a history is imaged, a generated sample is recovered with the production recovery code "
                    "and checked end to end (log -> replay -> query)."),
     "level_note": ("Process-crash model (directory image; mmap'd pages as stored). One shard, one data family, one leader. Known finding C07/name-created-inside-flush-cycle-persisted-with-data: replication steps that introduce new names "
-                   "are not taken inside a flush cycle while the finding is listed (steps that only write to existing series still race with the cycle)."),
-    "assumptions": ["crash = process death", "writes reach the family only through the local replicator (as in production)", "flush sub-steps in production order"],
+                   "are not taken inside a flush cycle while the finding is listed (steps that only write to existing series still race with the cycle; new-name steps are allowed inside family.Flush after the freeze)."),
+    "assumptions": ["crash = process death", "writes reach the family only through the local replicator (as in production)", "flush sub-steps in production order", "records decoding to a non-empty malformed block are not generated", "an actor blocked on a lock of the flush job is equivalent to running it at the next eligible point"],
     "tests": [
-        {"name": "TestNodeCrashRecovery", "quick": {"checks": 8, "shards": 4}, "thorough": {"checks": 40, "shards": 16}},
+        {"name": "TestNodeCrashRecovery", "quick": {"checks": 12, "shards": 4}, "thorough": {"checks": 40, "shards": 16}},
         {"name": "TestKnown_NameCreatedInsideFlushCycle", "quick": {}, "thorough": {}},
     ],
 }
